@@ -235,6 +235,7 @@ class Repo:
             for rel, t in base.templates.items():
                 self.templates[rel] = self.overlay.get(rel, t)
             self._normalise()
+            self._noreturn()
             self.bymod = {m.modname: m for m in self.modules.values()}
             self.funcs, self.classes = {}, {}
             for rel, m in self.modules.items():
@@ -257,10 +258,27 @@ class Repo:
                 elif '/templates/' in rel and f.endswith(('.xml', '.html', '.kml')):
                     self.templates[rel] = self._read(rel, p)
         self._normalise()
+        self._noreturn()
         self.bymod = {m.modname: m for m in self.modules.values()}
         self.funcs, self.classes = {}, {}
         for rel, m in self.modules.items():
             self._index(m, m.tree, rel + ':', None)
+
+    def _noreturn(self):
+        """names of functions that never return normally: no return/yield statement and every path ends in a raise; the name
+        must not also be bound to a function that can return"""
+        from . import cfg
+        good, bad = set(), set()
+        for m in self.modules.values():
+            for n in ast.walk(m.tree):
+                if isinstance(n, (ast.FunctionDef, ast.AsyncFunctionDef)):
+                    body = [s for s in n.body if not (isinstance(s, ast.Expr) and isinstance(s.value, ast.Constant))]
+                    nr = cfg.always_raises(body) and len(body) > 1 and not any(
+                        isinstance(x, (ast.Return, ast.Yield, ast.YieldFrom)) for x in ast.walk(n))
+                    (good if nr else bad).add(n.name)
+        # abstract methods (`raise NotImplementedError` only) are excluded by len(body) > 1; overridden names by `bad`
+        cfg.NORETURN.clear()
+        cfg.NORETURN.update(good - bad)
 
     def _normalise(self):
         """inline the functions the rules do not know into their callers (sa/inline.py)"""
